@@ -8,7 +8,8 @@
 (***************************************************************************)
 EXTENDS FramingRef, TLC
 
-CONSTANTS MaxLen, PreambleArmorCheck
+CONSTANTS MaxLen, PreambleArmorCheck,
+          NulHeaderCheck     \* FALSE = historical: a NUL-only line among the armor headers skipped like a header (F54)
 
 VARIABLES in, pos, st, ents, gpgFrom, gpgTo, out
 vars == <<in, pos, st, ents, gpgFrom, gpgTo, out>>
@@ -44,7 +45,7 @@ Step ==
               ELSE Common(c, "DATA") /\ UNCHANGED <<gpgFrom, gpgTo>>
          [] st = "PRE" ->
               IF c # "BL"
-              THEN IF PreambleArmorCheck /\ c \in ArmorLike
+              THEN IF (PreambleArmorCheck /\ c \in ArmorLike) \/ (NulHeaderCheck /\ c = "NL")
                    THEN Fail("syntax") /\ UNCHANGED <<gpgFrom, gpgTo>>
                    ELSE /\ gpgTo' = pos /\ pos' = pos + 1 /\ UNCHANGED <<in, st, ents, gpgFrom, out>>
               ELSE /\ gpgTo' = pos /\ st' = "SIGNED" /\ pos' = pos + 1
